@@ -1,9 +1,9 @@
 (** C16 — one complete DATA phase of the session automaton, seen from the
-    stream: 354, one reply per recipient in RCPT order carrying exactly the
-    submitted octets, and then exactly what a session in the reset state does
-    with the rest of the stream — for every body within the size limit that
-    the message checks accept; witnesses that raven does otherwise for the
-    other bodies. *)
+    stream, for EVERY body: 354, one reply per recipient in RCPT order
+    (a delivery reply carrying exactly the submitted octets, or a refusal of
+    the message for that recipient when it is over the size limit or fails the
+    message checks), and then exactly what a session in the reset state does
+    with the rest of the stream. *)
 From Coq Require Import String Ascii List Bool ZArith NArith Lia.
 From Raven Require Import Base.GoStr Model.Lmtp Spec.LmtpDialog Proof.LmtpData Proof.LmtpDialog.
 Import ListNotations.
@@ -16,78 +16,79 @@ Section Tx.
 
   Notation run := (run accepts delivers c).
 
-  (** input (body of one message) -> class *)
-  Definition classify_tx (b : list str) : option finding :=
-    if len (concat b) >? max_size c then Some OversizeDesync
-    else if negb (accepts (concat b)) then Some Single554
-    else None.
+  (** the per-recipient replies for the body [b] *)
+  Definition finals_of (s : st) (b : list str) : list ev :=
+    let d := concat b in
+    if len d >? max_size c then map (fun r => Refuse r 552) (rcpts s)
+    else if accepts d then map (fun r => Deliver r d (delivers r d)) (rcpts s)
+    else map (fun r => Refuse r 554) (rcpts s).
 
-  Definition deliveries (s : st) (d : str) : list ev :=
-    map (fun r => Deliver r d (delivers r d)) (rcpts s).
-
-  (** body lines are consumed silently while the running size is in the limit *)
-  Lemma run_data_body b : forall s buf size tail,
-    size + len (concat b) <= max_size c ->
-    run s (MData buf size) (stuff b ++ tail) =
-    run s (MData (buf ++ concat b) (size + len (concat b))) tail.
+  (** body lines are consumed silently, whatever their size and content *)
+  Lemma run_data_body b : forall s d tail,
+    run s (MData d) (stuff b ++ tail) = run s (MData (absorb (max_size c) d b)) tail.
   Proof.
-    induction b as [|l b IH]; intros s buf size tail H.
-    - cbn [stuff map app concat]. rewrite app_nil_r, len_nil, Z.add_0_r. reflexivity.
-    - cbn [stuff map app concat] in *. rewrite len_app in H.
-      pose proof (len_nonneg (concat b)).
-      cbn [Lmtp.run step]. rewrite data_line_stuff by lia.
-      fold (stuff b). rewrite IH by lia.
-      rewrite len_app, <- app_assoc, Z.add_assoc.
+    induction b as [|l b IH]; intros s d tail; [reflexivity|].
+    cbn [stuff map app Lmtp.run step absorb].
+    destruct (data_line (max_size c) d (stuff_line l)) eqn:E.
+    - pose proof (stuff_line_not_term l) as T. unfold data_line in E. unfold is_term in T.
+      rewrite T in E. destruct (d_big d); [discriminate|].
+      destruct (_ >? _); discriminate.
+    - fold (stuff b). rewrite IH.
       destruct (Lmtp.run _ _ _ _ _ _) as [e r]. reflexivity.
   Qed.
 
   Theorem transaction s dl args b term rest :
     parse_cmd dl = Some (S_ "DATA", args) ->
-    is_nil (mail_from s) = false -> rcpts s <> [] ->
+    mail_seen s = true -> rcpts s <> [] ->
     is_term term = true ->
-    classify_tx b = None ->
+    0 <= max_size c ->
     run s MCmd (dl :: stuff b ++ term :: rest) =
     (let '(e, r) := run (reset s) MCmd rest in
-     (Reply TData 354 [] :: deliveries s (concat b) ++ e, r)).
+     (Reply TData 354 [] :: finals_of s b ++ e, r)).
   Proof.
-    intros P MF RC T CL. unfold classify_tx in CL.
-    destruct (Z.gtb_spec (len (concat b)) (max_size c)) as [|Hsz]; [discriminate|].
-    destruct (accepts (concat b)) eqn:AC; [|discriminate].
+    intros P MS RC T M.
     cbn [Lmtp.run step]. rewrite P.
     assert (Hh : handle c s (S_ "DATA") args = (s, [Reply TData 354 []], NData)).
     { unfold handle. cbn [cmd_is S_ list_ascii_of_string str_eqb Ascii.eqb Bool.eqb andb].
-      rewrite MF. destruct (rcpts s); [congruence|reflexivity]. }
-    rewrite Hh. rewrite run_data_body by lia.
-    cbn [Lmtp.run step app]. rewrite (data_line_term _ _ _ _ T).
-    unfold finish_data. cbn [app]. rewrite AC.
-    destruct (run (reset s) MCmd rest) as [e r]. reflexivity.
+      rewrite MS. cbn [negb]. destruct (rcpts s); [congruence|reflexivity]. }
+    rewrite Hh. rewrite run_data_body.
+    cbn [Lmtp.run step app]. rewrite (data_line_term _ _ _ T).
+    unfold finish_data, reject, finals_of, data_end.
+    destruct (Z.gtb_spec (len (concat b)) (max_size c)) as [Hbig|Hsmall].
+    - rewrite absorb_large by (cbn; auto; lia).
+      destruct (run (reset s) MCmd rest) as [e r]. reflexivity.
+    - rewrite absorb_small by (cbn; auto; lia). cbn [d_big d_buf d0 app].
+      destruct (accepts (concat b)); destruct (run (reset s) MCmd rest) as [e r]; reflexivity.
   Qed.
 
-  (** the same in the executable form used for the refutations *)
+  (** the same in the executable form [tx_ok] *)
   Lemma evs_eqb_refl l : evs_eqb l l = true.
   Proof.
     induction l as [|e l IH]; [reflexivity|]. cbn. rewrite IH, andb_true_r.
-    destruct e as [t code a|r d o]; cbn.
+    destruct e as [t code a|r d o|r code]; cbn.
     - rewrite N.eqb_refl, str_eqb_refl. now destruct t.
     - rewrite !str_eqb_refl. now destruct o.
+    - now rewrite str_eqb_refl, N.eqb_refl.
   Qed.
 
-  Lemma finals_deliveries d cont : forall rs,
-    finals d rs (map (fun r => Deliver r d (delivers r d)) rs ++ cont) = Some cont.
+  Lemma finals_finals_of s b cont :
+    finals (concat b) (rcpts s) (finals_of s b ++ cont) = Some cont.
   Proof.
-    induction rs as [|r rs IH]; [reflexivity|]. cbn. now rewrite !str_eqb_refl.
+    unfold finals_of.
+    destruct (_ >? _); [|destruct (accepts _)];
+      induction (rcpts s) as [|r rs IH]; try reflexivity; cbn; now rewrite ?str_eqb_refl.
   Qed.
 
   Corollary transaction_tx_ok s dl args b term rest :
     parse_cmd dl = Some (S_ "DATA", args) ->
-    is_nil (mail_from s) = false -> rcpts s <> [] ->
+    mail_seen s = true -> rcpts s <> [] ->
     is_term term = true ->
-    classify_tx b = None ->
+    0 <= max_size c ->
     tx_ok (concat b) (rcpts s) (fst (run (reset s) MCmd rest))
           (fst (run s MCmd (dl :: stuff b ++ term :: rest))) = true.
   Proof.
     intros. rewrite (transaction s dl args b term rest) by assumption.
     destruct (run (reset s) MCmd rest) as [e r]. cbn [fst tx_ok N.eqb Pos.eqb andb].
-    unfold deliveries. rewrite finals_deliveries. apply evs_eqb_refl.
+    rewrite finals_finals_of. apply evs_eqb_refl.
   Qed.
 End Tx.
